@@ -56,6 +56,12 @@ func apiGet(url string) (body []byte, err error) {
 		return
 	}
 
+	// The error response, for example, 500 with the plain error text, is never a success.
+	if resp.StatusCode < 200 || resp.StatusCode >= 300 {
+		err = fmt.Errorf("api status failed, url=%v, status=%v, body=%v", url, resp.StatusCode, string(body))
+		return
+	}
+
 	return
 }
 
